@@ -20,15 +20,8 @@ theorem runD_loop (st : State) (p : Char → Bool) (kind : Kind)
 theorem nameStart_not_punct (c : Char) (h : isNameStart c = true) : punctuationKind c = none := by
   unfold isNameStart at h
   simp only [Bool.or_eq_true, Bool.and_eq_true, decide_eq_true_eq, beq_iff_eq] at h
-  have ne : ∀ n, (n = 123 ∨ n = 125 ∨ n = 33 ∨ n = 36 ∨ n = 38 ∨ n = 40 ∨ n = 41 ∨ n = 58 ∨ n = 44 ∨ n = 91 ∨
-      n = 93 ∨ n = 61 ∨ n = 64 ∨ n = 124) → (c.toNat == n) = false := by
-    intro n hn
-    simp only [beq_eq_false_iff_ne, ne_eq]
-    omega
   unfold punctuationKind
-  simp only [ne 123 (by simp), ne 125 (by simp), ne 33 (by simp), ne 36 (by simp), ne 38 (by simp), ne 40 (by simp),
-    ne 41 (by simp), ne 58 (by simp), ne 44 (by simp), ne 91 (by simp), ne 93 (by simp), ne 61 (by simp),
-    ne 64 (by simp), ne 124 (by simp), Bool.false_eq_true, if_false]
+  split <;> first | rfl | omega
 
 /-- Punctuators are single-character tokens of the table's kind. -/
 theorem lex_punctuator (c : Char) (k : Kind) (rest : Str) (h : punctuationKind c = some k) :
